@@ -301,11 +301,7 @@ func (t *Thread) processIncomingInterest(packet *defn.Pkt) {
 	if packet.NextHopFaceID != nil {
 		if dispatch.GetFace(*packet.NextHopFaceID) != nil {
 			core.LogTrace(t, "NextHopFaceId is set for Interest ", packet.Name, " - dispatching directly to face")
-			dispatch.GetFace(*packet.NextHopFaceID).SendPacket(dispatch.OutPkt{
-				Pkt:      packet,
-				PitToken: packet.PitToken, // TODO: ??
-				InFace:   packet.IncomingFaceID,
-			})
+			t.processOutgoingInterest(packet, pitEntry, *packet.NextHopFaceID, incomingFace.FaceID())
 		} else {
 			core.LogInfo(t, "Non-existent face specified in NextHopFaceId for Interest ", packet.Name, " - DROP")
 		}
